@@ -4,7 +4,7 @@
    an asyncio.timeout expiry delivered exactly at the k-th suspension point) are replayed through AsyncCancel!Step.
    ONE TLC run (-workers 1) consumes every trace of the file IOEnv.TRACE_FILE (batch pattern of TraceCatalog):
 
-     trace = [id, prog, pool, k, mode, ev]     prog  the program (sequence of ops), pool in {"idle","empty","cold"}
+     trace = [id, prog, pool, k, mode, ev]     prog  the program (sequence of ops), pool in {"idle","idle2","empty","cold"}
      event = [e, a, b, id, n (, o)]            the alphabet of AsyncCancel (o = observation record of settle / fresh / end)
 
    Step is deterministic, so the chain is: an event whose rules all hold advances the state; the first event that breaks a
